@@ -556,8 +556,15 @@ impl SrtlaConnection {
     }
 
     /// Whether this link is eligible for packet scheduling.
+    ///
+    /// Requires `connected` as well as a schedulable phase: REG_ERR clears
+    /// `connected` without resetting the phase, and any later datagram on that
+    /// link refreshes `last_received`, so a rejected link could otherwise pose
+    /// as a live, healthy candidate. The stall gate would then count it as the
+    /// "healthier alternative" and gate the last link that can actually carry
+    /// the stream (and the in-flight-cap fallback would skip it the same way).
     pub fn is_schedulable(&self) -> bool {
-        self.phase.is_schedulable()
+        self.connected && self.phase.is_schedulable()
     }
 
     /// Scheduling weight contributed by this link's phase
